@@ -262,3 +262,76 @@ def op_rank_graph(job):
 
 
 OPS = {k[3:]: v for k, v in list(globals().items()) if k.startswith('op_')}
+
+
+def _snapshot_for_trace(cols):
+    q = quality_snapshot()
+    rare = []
+    for k, v in CR.GLOBAL_RARE_VALUE_STORAGE.items():
+        rare.append([k[0], k[1], int(v)])
+    return {'card': {c: q['card'].get(c, 0) for c in cols}, 'hist': {c: q['hist'].get(c, {}) for c in cols}, 'rare': rare}
+
+
+def op_quality_replay(job):
+    """Each history = list of batches (lists of rows); fresh globals per history; the real
+    compute_coverage / compute_cardinalities / compute_value_counts per batch."""
+    cols = job['columns']
+    args = L.make_args(**job.get('args', {}))
+    out = []
+    for hist in job['histories']:
+        L.reset_globals()
+        cov = {c: [] for c in cols}
+        for rows in hist:
+            df = pd.DataFrame(rows, columns=cols)
+            cs = CR.compute_coverage(df, args)
+            for c in cols:
+                cov[c].append(float(cs[c]))
+            CR.compute_cardinalities(df, L.Pbar(), args.max_unique_hist_constraint)
+            if args.task == 'identify_rare_values':
+                CR.compute_value_counts(df, args)
+        snap = _snapshot_for_trace(cols)
+        snap['cov'] = cov
+        out.append(snap)
+    return out
+
+
+def op_quality_stream(job):
+    """run_stream variant that records, after every batch, the rows of the batch and the
+    data-quality snapshot (for TraceQuality)."""
+    import tempfile
+    wd = tempfile.mkdtemp(prefix='q.')
+    cwd = os.getcwd()
+    os.chdir(wd)
+    try:
+        L.reset_globals()
+        fname = os.path.join(wd, 'data.csv')
+        with open(fname, 'w', encoding='utf-8', newline='') as f:
+            f.writelines(job['lines'])
+        args = L.make_args(**job.get('args', {}))
+        events = []
+        orig = CR.compute_batch_ranking
+
+        def batch(line_tmp_storage, *a, **k):
+            rows = [list(r) for r in line_tmp_storage]
+            res = orig(line_tmp_storage, *a, **k)
+            snap = _snapshot_for_trace(job['columns'])
+            snap.update(e='batch', cols=job['columns'], rows=rows, cov={c: int(round(float(res[2][c]) * 1024)) for c in job['columns']})
+            events.append(snap)
+            return res
+        CR.compute_batch_ranking = batch
+        try:
+            res = CR.estimate_importances_minibatches(
+                input_file=fname, column_descriptions=job['columns'], fw_col_mapping=None, numeric_column_types=set(), args=args,
+                data_encoding='utf-8', cpu_pool=L.ScheduledPool(), delimiter=',', logger=CaptureLogger(Recorder({})))
+        finally:
+            CR.compute_batch_ranking = orig
+        return {'events': events, 'card': {c: len(h) for c, h in res[2].items()}, 'coverage': {c: [float(x) for x in v] for c, v in res[5].items()},
+                'rare': [[k[0], k[1], int(v)] for k, v in res[6].items()],
+                'hist': {c: {str(k): int(v) for k, v in cnt.default_counter.items()} for c, cnt in res[8].items()}}
+    finally:
+        os.chdir(cwd)
+        import shutil
+        shutil.rmtree(wd, ignore_errors=True)
+
+
+OPS = {k[3:]: v for k, v in list(globals().items()) if k.startswith('op_')}
